@@ -121,6 +121,7 @@ func cmdExplore(args []string) int {
 	params := map[string]int{}
 	workers := runtime.NumCPU()
 	preempt, deadlock, pbudget := 0, false, 0
+	maporder, tmo := false, 30*time.Minute
 	for _, kv := range args[2:] {
 		if i := strings.IndexByte(kv, '='); i > 0 {
 			n, _ := strconv.Atoi(kv[i+1:])
@@ -137,6 +138,12 @@ func cmdExplore(args []string) int {
 			case "deadlock":
 				deadlock = n == 1
 				continue
+			case "maporder":
+				maporder = n == 1
+				continue
+			case "timeout":
+				tmo = time.Duration(n) * time.Second
+				continue
 			}
 			params[kv[:i]] = n
 		}
@@ -147,8 +154,8 @@ func cmdExplore(args []string) int {
 		return 2
 	}
 	fmt.Fprintf(os.Stderr, "loaded in %v\n", env.LoadTime)
-	run := HarnessRun{Entry: entry, PkgPath: pkgPathOf(pd), Params: params, Preempt: preempt, Deadlock: deadlock, Budget2: pbudget}
-	res := explore(env, run, workers, "", 30*time.Minute)
+	run := HarnessRun{Entry: entry, PkgPath: pkgPathOf(pd), Params: params, Preempt: preempt, Deadlock: deadlock, Budget2: pbudget, MapOrder: maporder}
+	res := explore(env, run, workers, "", tmo)
 	printResult(res)
 	for i, v := range res.Violations {
 		p := writeReplay("DBG", pd, run, v, i)
